@@ -1667,6 +1667,13 @@ class Optimizer:
     def zero_grad(self, *a, **k): pass
 
 
+class _UnmodelledBase:
+    """stands in for an unmodelled torch base class: harmless to derive from; constructing it with arguments is an engine gap (the real
+    base would have consumed them), never a TypeError of `object.__init__` charged to the code under contract"""
+    def __init__(self, *a, **k):
+        if a or k: raise EngineGap("constructor of an unmodelled torch base class called with arguments")
+
+
 class Placeholder:
     """an unmodelled torch attribute: harmless to import, EngineGap when used"""
     def __init__(self, path): self._path = path
@@ -1677,7 +1684,7 @@ class Placeholder:
         if len(a) == 1 and callable(a[0]) and not k and not isinstance(a[0], Tensor):
             return a[0]          # used as a decorator
         raise EngineGap(f"torch API not modelled: {self._path}")
-    def __mro_entries__(self, bases): return (object,)
+    def __mro_entries__(self, bases): return (_UnmodelledBase,)
     def __repr__(self): return f'<unmodelled {self._path}>'
     def __or__(self, o): return self
     def __ror__(self, o): return self
